@@ -324,7 +324,11 @@ class ValDriver(Harness):
         t = self.priv_template(b"unwrapped", pv) if kind == "rsa" else self.template(kind, b"unwrapped", private=pv)
         if kind != "rsa":
             # what the caller's template says about CKA_ENCRYPT
-            t = [x for x in t if x[0] != K.CKA_ENCRYPT] + ([] if e == "absent" else [(K.CKA_ENCRYPT, e == "T")])
+            t = [x for x in t if x[0] != K.CKA_ENCRYPT] + {"absent": [], "T": [(K.CKA_ENCRYPT, True)], "F": [(K.CKA_ENCRYPT, False)],
+                                                          "TF": [(K.CKA_ENCRYPT, True), (K.CKA_LABEL, b"unwrapped"), (K.CKA_ENCRYPT, False)],
+                                                          "FT": [(K.CKA_ENCRYPT, False), (K.CKA_LABEL, b"unwrapped"), (K.CKA_ENCRYPT, True)]}[e]
+            if e in ("TF", "FT"):
+                t = [x for i, x in enumerate(t) if not (x[0] == K.CKA_LABEL and i < len(t) - 3)]
         rv, g = p.unwrap_key(s, self.wrap_mech(m, meta["iv"]), wh, self.blobs[b], t)
         ev = dict(e="Unwrap", m=m, w=w, b=b, rv=rvname(rv), k=0, v="", kcv="", kcvref="", made=self.count() - before,
                   attrsok=False, enc="")
